@@ -1,2 +1,155 @@
-"""LazyList contracts (C13, C14, C12) -- below"""
-from . import W  # noqa
+"""vyxal/LazyList.py: class LazyList against the list it enumerates (C13), with pull counts (C14) and
+balance of ctx.stacks while printing (C12).
+
+Abstract view: src = the whole sequence the underlying iterator runs over (ghost, it_src), k = its
+position (it_pos).  Representation invariant INV: generated == src[:k].  Every method is verified
+from an arbitrary state satisfying INV -- that is what decides "regardless of earlier observations"."""
+from pyvc.sym import INT, BOOL, STR, CHAR, VAL, SEQ
+from pyvc.world import ListOf, IterOf, ObjSpec
+from . import W
+from .inputs import ctx_spec, revv
+from . import inputs  # noqa
+
+LAZY = ObjSpec("LazyList", dict(generated=ListOf(VAL), raw_object=IterOf(VAL), infinite=BOOL))
+LAZY.relpath = "vyxal/LazyList.py"
+W.obj_specs["LazyList"] = LAZY
+LL = "vyxal/LazyList.py::LazyList."
+SRC = "it_src(self.raw_object)"
+K = "it_pos(self.raw_object)"
+INV = f"self.generated == {SRC}[:{K}]"
+LETS = {"k0": K, "gen0": "self.generated"}
+MODS = ["self.generated", "self.raw_object"]
+
+W.contract(
+    "vyxal/helpers.py::vyxalify",
+    params=dict(value=VAL), result=VAL, ensures=["result == value"], trusted=True,
+    note="vyxalify is the identity on values that already are Vyxal values (int, Rational, str, list, LazyList, function); the sources of lazy lists in C13 are sequences of such values",
+    props=["C13", "C14"],
+)
+
+W.contract(
+    LL + "__next__",
+    params=dict(self=LAZY), result=VAL, lets=LETS, requires=[INV],
+    raises={"StopIteration": dict(when=f"{K} >= len({SRC})", ensures=[f"{K} == k0", "self.generated == gen0"], modifies=[])},
+    ensures=[f"result == {SRC}[k0]", f"{K} == k0 + 1", INV],
+    modifies=MODS,
+    props=["C13", "C14"],
+)
+
+W.contract(
+    LL + "has_ind",
+    params=dict(self=LAZY, ind=INT), result=BOOL, lets=LETS, requires=[INV],
+    ensures=[
+        f"result == (0 <= ind and ind < len({SRC}))",
+        INV,
+        # C14: pulls only what the question needs
+        f"{K} == max(k0, min(ind + 1, len({SRC})))",
+    ],
+    ensures_names=["C13-has_ind-value", "C13-inv", "C14-pulls-only-needed"],
+    modifies=MODS,
+    loops={0: dict(inv=[INV, f"{K} == k0 + _k", f"k0 + _k <= len({SRC})", "k0 <= ind"])},
+    props=["C13", "C14"],
+)
+
+W.contract(
+    LL + "__getitem__",
+    params=dict(self=LAZY, position=INT), result=VAL, lets=LETS,
+    requires=[INV, f"position >= -len({SRC})"],
+    ensures=[
+        INV,
+        f"implies(position >= 0 and len({SRC}) == 0, result == 0)",
+        f"implies(0 <= position and position < len({SRC}), result == {SRC}[position])",
+        f"implies(position >= len({SRC}) and len({SRC}) > 0, result == {SRC}[position % len({SRC})])",
+        f"implies(position < 0, result == {SRC}[position])",
+        f"implies(position >= 0, {K} == max(k0, min(position + 1, len({SRC}))))",
+    ],
+    ensures_names=["C13-inv", "C13-index-empty", "C13-index", "C13-index-wraps", "C13-negative-index", "C14-pulls-only-needed"],
+    modifies=MODS,
+    loops={2: dict(inv=[INV, f"k0 <= {K}", f"{K} <= max(k0, position + 1)", f"{K} <= len({SRC})", "position >= 0", "k0 <= position"])},
+    props=["C13", "C14"],
+)
+
+W.contract(
+    LL + "__iter__",
+    params=dict(self=LAZY), result=SEQ(VAL), yields=VAL, lets=LETS, requires=[INV],
+    yields_expr=SRC,
+    at_yield=[INV, f"{K} >= len(_yielded)", f"{K} <= max(k0, len(_yielded))", f"_yielded == {SRC}[:len(_yielded)]"],
+    ensures=[f"result == {SRC}", INV, f"{K} == len({SRC})"],
+    ensures_names=["C13-iterates-the-list", "C13-inv", "C13-fully-generated"],
+    modifies=MODS,
+    loops={0: dict(inv=[INV, f"_yielded == {SRC}[:i]", f"i <= len({SRC})", f"{K} == i", "i >= k0"])},
+    hints=[f"{SRC}[:len({SRC})] == {SRC}"],
+    props=["C13", "C14"],
+)
+
+W.contract(
+    LL + "__len__",
+    params=dict(self=LAZY), result=INT, lets=LETS, requires=[INV],
+    ensures=[f"result == len({SRC})", INV],
+    modifies=MODS,
+    loops={0: dict(inv=[INV])},
+    props=["C13"],
+)
+
+W.contract(
+    LL + "__bool__",
+    params=dict(self=LAZY), result=BOOL, lets=LETS, requires=[INV],
+    ensures=[f"result == (len({SRC}) > 0)", INV, f"{K} == max(k0, min(1, len({SRC})))"],
+    ensures_names=["C13-truthiness", "C13-inv", "C14-pulls-at-most-one"],
+    modifies=MODS,
+    props=["C13", "C14"],
+)
+
+W.contract(
+    LL + "listify",
+    params=dict(self=LAZY), result=ListOf(VAL), lets=LETS, requires=[INV],
+    ensures=[f"result == {SRC}", INV, f"{K} == len({SRC})"],
+    modifies=MODS,
+    loops={0: dict(inv=[INV, f"temp == {SRC}[:{K}]"])},
+    hints=[f"{SRC}[:len({SRC})] == {SRC}"],
+    props=["C13"],
+)
+
+W.contract(
+    LL + "__contains__",
+    params=dict(self=LAZY, lhs=VAL), result=INT, lets=LETS, requires=[INV, "not self.infinite"],
+    ensures=[f"(result == 1) == (lhs in {SRC})", "result == 0 or result == 1", INV],
+    ensures_names=["C13-membership", "C13-membership-is-0-or-1", "C13-inv"],
+    modifies=MODS,
+    loops={1: dict(inv=[f"not (lhs in {SRC}[:_k])"], hints_exit=[f"{SRC}[:len({SRC})] == {SRC}"])},
+    props=["C13"],
+)
+
+# ---- printing (C12): the stack registered while printing is unregistered again
+PRINT_CTX = ctx_spec(vyxal_lists=BOOL, printed=BOOL)
+for _name in ("vy_print", "vy_repr"):
+    W.contract(
+        f"vyxal/elements.py::{_name}",
+        params=dict(lhs=VAL, end=VAL, ctx=PRINT_CTX) if _name == "vy_print" else dict(lhs=VAL, ctx=PRINT_CTX),
+        result=VAL, ensures=[], modifies=["ctx.printed"], trusted=True,
+        note=f"{_name} leaves the four bookkeeping lists of ctx as it found them (for lazy lists through LazyList.output, which is verified; for function values through the call protocol, C12's induction hypothesis)",
+        props=["C12"],
+    )
+
+
+def _val_isinstance(self, ex, v, cls):
+    import z3
+    from pyvc.sym import SV, BOOL as _B, VAL_SORT
+    from pyvc.templates import uf
+
+    return SV(uf("isinstance_" + str(abs(hash(repr(cls))) % 10**6), [VAL_SORT], z3.BoolSort())(v.z), _B)
+
+
+type(W).val_isinstance = _val_isinstance
+
+W.contract(
+    LL + "output",
+    params=dict(self=LAZY, end=VAL, ctx=PRINT_CTX), lets={"st0": "ctx.stacks", "cv0": "ctx.context_values", "fs0": "ctx.function_stack", "ins0": "ctx.inputs", **LETS},
+    requires=[INV],
+    ensures=["ctx.stacks == st0", "ctx.context_values == cv0", "ctx.function_stack == fs0", "ctx.inputs == ins0", INV],
+    ensures_names=["C12-stacks-restored", "C12-context_values", "C12-function_stack", "C12-inputs", "C13-inv"],
+    modifies=MODS + ["ctx.stacks", "ctx.printed"],
+    loops={0: dict(inv=["ctx.stacks[:len(st0)] == st0", "len(ctx.stacks) == len(st0) + 1", INV]),
+           1: dict(inv=["ctx.stacks[:len(st0)] == st0", "len(ctx.stacks) == len(st0) + 1", INV])},
+    props=["C12", "C13"],
+)
